@@ -29,6 +29,7 @@ func (m *Map) UseRegistry(reg *schemas.Registry) {
 // Find returns the node for the given ID.
 func (m *Map) Find(id uint64) (schema.Node, error) {
 	if n := m.nodes[id]; n.IsValid() {
+		resetReadLimit(n)
 		return n, nil
 	}
 	data, err := m.registry().Find(id)
@@ -54,5 +55,17 @@ func (m *Map) Find(id uint64) (schema.Node, error) {
 		n := nodes.At(i)
 		m.nodes[n.Id()] = n
 	}
-	return m.nodes[id], nil
+	n := m.nodes[id]
+	resetReadLimit(n)
+	return n, nil
+}
+
+// resetReadLimit restores the traversal budget of the schema message that n
+// was read from.  The cached nodes are read again on every lookup, so
+// without this the message's read limit would be used up by repeated use of
+// the same Map.  Schemas come from the program's own registry and are trusted.
+func resetReadLimit(n schema.Node) {
+	if n.IsValid() {
+		n.Message().ResetReadLimit(^uint64(0))
+	}
 }
